@@ -1762,6 +1762,21 @@ def overstep_outside_vertex(case, base):
     return any(len(v) == len(lo) and any(x < l or x > h for x, l, h in zip(v, lo, hi)) for v in pops)
 
 
+def outside_vertex_in_history(case, base):
+    """precondition of F75 for the modes in which a Solve() follows a series of Steps: strict ranges, and some member's recorded
+    best vertices (its step monitor) include a point outside them - the ensemble's re-decoration at that Solve() clips the
+    population it shares with its best member of the moment, which may still be running and then continues from the
+    clipped vertex"""
+    if case.get("lo") is None:
+        return False
+    lo, hi = case["lo"], case["hi"]
+    for m in base.get("members", []):
+        for v in (m.get("stepmon_x") or []) + (m.get("population") or []):
+            if len(v) == len(lo) and any(x < l or x > h for x, l, h in zip(v, lo, hi)):
+                return True
+    return False
+
+
 def ensctl_request(n_iters, calls):
     return "C07 ensctl (n %s) (calls (%s)) (fuel 100000)" % (common.nl(n_iters), " ".join(k for k, _ in calls))
 
@@ -1893,7 +1908,8 @@ def ens_stream(seed, shard, ncases, tier, hist, findings, samples, ks=None):
                                                 base["bestSolution"], base["population"], base["bestEnergy"], int(mode[1]), name,
                                                 r["bestSolution"], r["population"], case["lo"], case["hi"]), c))
                 over_reported += 1
-            elif (dk or dr or ds) and mtag == "step-over" and overstep_outside_vertex(case, base):
+            elif (dk or dr or ds) and ((mtag == "step-over" and overstep_outside_vertex(case, base)) or
+                                        (mtag in ("steps-whole", "steps-solve", "solve-over") and outside_vertex_in_history(case, base))):
                 # F75, second stage: the clipped vertex no longer satisfies the member's termination, so the member the
                 # ensemble shares its population with RESUMES iterating at the following Steps (more generations and
                 # evaluations than the run-to-completion run); precondition of the class: the stopped ensemble's shared
@@ -1929,7 +1945,8 @@ def ens_stream(seed, shard, ncases, tier, hist, findings, samples, ks=None):
                     "Solve with python_map and %s with the %s map leave different %s (members stop after %r iterations): %s" % (
                         mode, name, "results" if clause == "result" else "member states (same reported results)", n_iters, desc[:900]), c))
             # the control-logic model: what every ensemble call did to every member (in-process maps see the events)
-            if name != "processes" and calls and not (mtag == "step-over" and overstep_outside_vertex(case, base)):
+            if name != "processes" and calls and not (mtag == "step-over" and overstep_outside_vertex(case, base)) \
+                    and not (mtag in ("steps-whole", "steps-solve", "solve-over") and outside_vertex_in_history(case, base)):
                 # (inside the F75 class - Steps after the stop with a stored vertex outside the ranges - the member resumes,
                 #  which the control model, faithful to the run up to the stop, does not follow)
                 lines.append(ensctl_request(n_iters, calls)); pending.append((name, mode, calls, n_iters, meta))
